@@ -856,3 +856,20 @@ Check family_not_negotiated_sends_nothing :
   forall x polr emax raddr cid cs e,
     run_updates false x polr emax raddr cid cs e = Ok ([], e).
 Print Assumptions family_not_negotiated_sends_nothing.
+
+(* Route refresh / soft reset out.  PeerSession::apply_refresh_walk (model refresh_changes: each
+   destination once per path with that path named as replaced on an Add-Path session, once
+   otherwise) goes through the same process_nlri_change: every announcement it queues is an
+   advertisement of a destination of the walk, so all the statements above hold of it. *)
+Theorem refresh_announcements_are_advertised :
+  forall x pol emax raddr cid walk e r ap d key nh a,
+    run_updates true x (lift_policy pol) emax raddr cid (flat_map (refresh_changes emax) walk) e = Ok r ->
+    pending_after ap (fst r) d key PNothing = PReach nh a ->
+    exists c0 rep e' pid s, In c0 walk /\ advertised x pol emax raddr cid (with_replaced c0 rep) e' d pid nh a s.
+Proof. exact C09_refresh_announcements_are_advertised. Qed.
+Check refresh_announcements_are_advertised :
+  forall x pol emax raddr cid walk e r ap d key nh a,
+    run_updates true x (lift_policy pol) emax raddr cid (flat_map (refresh_changes emax) walk) e = Ok r ->
+    pending_after ap (fst r) d key PNothing = PReach nh a ->
+    exists c0 rep e' pid s, In c0 walk /\ advertised x pol emax raddr cid (with_replaced c0 rep) e' d pid nh a s.
+Print Assumptions refresh_announcements_are_advertised.
